@@ -15,6 +15,8 @@ package http
 // description is used exactly as supplied): the decoded header map is replaced only when there is none, every
 // entry of it is set on the request, and nothing but the content type is set after them
 //@ site store Headers assert [C19 C20] old == nil
+// every message is decoded into a description of its own (nothing carried over from the previous message)
+//@ site call Unmarshal assert [C19 C20] httpData == nil
 //@ site store Url assert [C19 C20] false
 //@ site call Set assert [C19 C20] (key == "Content-Type" && value == "application/json") || (has_key(httpData.Headers, key) && httpData.Headers[key] == value)
 //@ site call NewRequest assert [C19 C20] method == "POST" && url == httpData.Url
